@@ -649,7 +649,8 @@ func (e *Engine) execSimple(st *State, fr *Frame, ins ssa.Instruction) {
 			break
 		}
 		c := e.newCell(elem, x.Comment, x.Heap)
-		if at, ok := elem.Underlying().(*types.Array); ok {
+		_, namedArr := types.Unalias(elem).(*types.Named)
+		if at, ok := elem.Underlying().(*types.Array); ok && !namedArr {
 			// arrays are modelled as backing stores addressed like slices
 			c.arr = true
 			c.base = e.smt.Fresh("arr", SU)
